@@ -5,7 +5,7 @@ from __future__ import annotations
 
 import ast
 import copy
-from dataclasses import dataclass, field
+from dataclasses import dataclass
 from typing import Optional
 
 from ..core import cfg as cfgmod
@@ -22,7 +22,7 @@ TARGETS = [(MPFA, "Mpfa"), (MPSA, "Mpsa"), (BIOT, "Biot")]
 
 # Set to True to turn the dictionary-level mismatch of Biot's update arm (see R3 note) into
 # a finding instead of a note (then it needs a known_findings.json entry).
-REPORT_KEYED_UPDATE_LEVEL = False
+REPORT_KEYED_UPDATE_LEVEL = True
 
 META = {
     "explanation": (
